@@ -415,6 +415,10 @@ func (p *ProposeCtx) AddExit(v common.ValidatorIndex) bool {
 	if uint64(len(p.B.VoluntaryExits)) >= uint64(c.Spec.MAX_VOLUNTARY_EXITS) || p.used[v] || !p.canExit(v) || p.Flats[v].Slashed || !p.spare() {
 		return false
 	}
+	if p.Fork == Phase0 && p.PendingDeposits > 0 && c.Stats.Get("phase0.blocks_deposits_no_exits") == 0 {
+		// the first phase0 block with deposits stays without exits: then the deposit loop holds the block's last context poll
+		return false
+	}
 	p.removed++
 	ep := p.Epoch
 	if ep > 0 && c.Rng.Chance(30) {
@@ -1217,6 +1221,9 @@ func (c *Chain) Propose(s common.Slot) (bool, error) {
 	c.Honest = append(c.Honest, HonestStep{PreID: preID, Blk: p.B, BlkID: blkID, Engine: engMode, Line: line, HasPayload: p.Ops["payload"] > 0, ZeroHashMerge: p.Ops["payload_merge_block_zero_hash"] > 0})
 	c.Stats.Inc("blocks")
 	c.Stats.Inc(fork.String() + ".blocks")
+	if len(p.B.Deposits) > 0 && len(p.B.VoluntaryExits) == 0 {
+		c.Stats.Inc(fork.String() + ".blocks_deposits_no_exits")
+	}
 	{
 		// validators whose exit this single block initiates (voluntary exits + slashings): the exit queue overflows inside
 		// one block when there are more than the churn limit, and advances twice from 2*churn+1 on
